@@ -5,10 +5,12 @@ import (
 	"encoding/json"
 	"fmt"
 	"io"
+	"runtime"
 	"strconv"
 	"strings"
 	"time"
 
+	"github.com/welllog/golib/goz"
 	"github.com/welllog/golib/mapz"
 	"github.com/welllog/golib/mathz"
 	"github.com/welllog/golib/sortz"
@@ -306,6 +308,87 @@ func run(c *core.Case, st *core.CaseStats, seed int64) {
 				rep("Body.QueryString after Read", "value", in, want, q)
 			}
 		})
+	case "recover":
+		var fo string
+		var hp, hpan bool
+		var sc []json.RawMessage
+		json.Unmarshal(c.S, &sc)
+		json.Unmarshal(sc[0], &fo)
+		json.Unmarshal(sc[1], &hp)
+		json.Unmarshal(sc[2], &hpan)
+		co := make([]string, len(c.A))
+		for i, r := range c.A {
+			json.Unmarshal(r, &co[i])
+		}
+		var o struct {
+			Log [][]interface{}
+			Esc string
+		}
+		json.Unmarshal(c.Out, &o)
+		st.Nontrivial++
+		in := map[string]interface{}{"fn": fo, "panicFn": hp, "panicFn_panics": hpan, "cleanups": co}
+		var log [][]interface{}
+		esc := "none"
+		guard("Recover", in, func() {
+			done := make(chan struct{})
+			go func() {
+				defer func() {
+					if p := recover(); p != nil {
+						if p == interface{}("handler-boom") {
+							esc = "handler"
+						} else {
+							esc = fmt.Sprintf("other: %v", p)
+						}
+					}
+					close(done)
+				}()
+				var h func(interface{})
+				if hp {
+					h = func(p interface{}) {
+						if s, ok := p.(string); ok && strings.HasPrefix(s, "cleanup panic: ") {
+							k := -1
+							if j := strings.LastIndex(s, "index: "); j >= 0 {
+								k, _ = strconv.Atoi(s[j+7:])
+							}
+							log = append(log, []interface{}{"handler", "cleanup", k})
+						} else {
+							log = append(log, []interface{}{"handler", "fn"})
+						}
+						if hpan {
+							panic("handler-boom")
+						}
+					}
+				}
+				cl := make([]func(), len(co))
+				for i := range co {
+					i := i
+					cl[i] = func() {
+						log = append(log, []interface{}{"cleanup", i + 1})
+						if co[i] == "panic" {
+							panic("cleanup-boom")
+						}
+					}
+				}
+				goz.Recover(func() {
+					log = append(log, []interface{}{"fn"})
+					switch fo {
+					case "panic":
+						panic("fn-boom")
+					case "goexit":
+						runtime.Goexit()
+					}
+				}, h, cl...)
+			}()
+			<-done
+		})
+		got, _ := json.Marshal(log)
+		want, _ := json.Marshal(o.Log)
+		if len(log) == 0 {
+			got = []byte("[]")
+		}
+		if string(got) != string(want) || esc != o.Esc {
+			rep("Recover", "value", in, map[string]interface{}{"log": o.Log, "escapes": o.Esc}, map[string]interface{}{"log": log, "escapes": esc})
+		}
 	default:
 		panic("unknown case kind " + c.Fn)
 	}
